@@ -7,6 +7,7 @@ package quic
 // designed close entry points (closeLocal / destroyImpl), nothing else.
 
 import (
+	"context"
 	"errors"
 	"fmt"
 	"net"
@@ -14,6 +15,7 @@ import (
 	"time"
 	"unsafe"
 
+	"github.com/refraction-networking/uquic/internal/flowcontrol"
 	"github.com/refraction-networking/uquic/internal/monotime"
 	"github.com/refraction-networking/uquic/internal/protocol"
 	"github.com/refraction-networking/uquic/internal/qerr"
@@ -322,3 +324,55 @@ func VerifRunLoopSnapshotNow() int64 { return int64(monotime.Now()) }
 // VerifQueueHandshakeDone queues a HANDSHAKE_DONE frame for sending. Sent by a client it
 // is a protocol violation the server must answer with a fatal transport error.
 func VerifQueueHandshakeDone(c *Conn) { c.queueControlFrame(&wire.HandshakeDoneFrame{}) }
+
+// ---- fan-out at unit level: a real streamsMap + datagramQueue, frames injected, then exactly the two calls of
+// Conn.handleCloseError (streamsMap.CloseWithError, datagramQueue.CloseWithError)
+
+type verifRLSender struct{}
+
+func (verifRLSender) onHasConnectionData()                                                {}
+func (verifRLSender) onHasStreamData(protocol.StreamID, *SendStream)                      {}
+func (verifRLSender) onHasStreamControlFrame(protocol.StreamID, streamControlFrameGetter) {}
+func (verifRLSender) onStreamCompleted(protocol.StreamID)                                 {}
+
+// VerifRLFanout is the API-object side of a (server) connection without the connection.
+type VerifRLFanout struct {
+	m  *streamsMap
+	dq *datagramQueue
+}
+
+func NewVerifRLFanout(maxIncoming uint64) *VerifRLFanout {
+	rtt := utils.NewRTTStats()
+	cfc := flowcontrol.NewConnectionFlowController(1<<20, 1<<20, func(protocol.ByteCount) bool { return true }, rtt, utils.DefaultLogger)
+	v := &VerifRLFanout{}
+	v.m = newStreamsMap(context.Background(), verifRLSender{}, func(wire.Frame) {},
+		func(id protocol.StreamID) flowcontrol.StreamFlowController {
+			return flowcontrol.NewStreamFlowController(id, cfc, 1<<16, 1<<16, 1<<16, rtt, utils.DefaultLogger)
+		},
+		maxIncoming, maxIncoming, protocol.PerspectiveServer)
+	v.dq = newDatagramQueue(func() {}, utils.DefaultLogger)
+	return v
+}
+
+func (v *VerifRLFanout) StreamFrame(id, off int64, data []byte, fin bool) error {
+	return v.m.HandleStreamFrame(&wire.StreamFrame{StreamID: protocol.StreamID(id), Offset: protocol.ByteCount(off), Data: data, Fin: fin}, monotime.Now())
+}
+
+func (v *VerifRLFanout) ResetStream(id, final, reliable int64, code uint64) error {
+	return v.m.HandleResetStreamFrame(&wire.ResetStreamFrame{StreamID: protocol.StreamID(id), ErrorCode: qerr.StreamErrorCode(code),
+		FinalSize: protocol.ByteCount(final), ReliableSize: protocol.ByteCount(reliable)}, monotime.Now())
+}
+
+func (v *VerifRLFanout) StopSending(id int64, code uint64) error {
+	return v.m.HandleStopSendingFrame(&wire.StopSendingFrame{StreamID: protocol.StreamID(id), ErrorCode: qerr.StreamErrorCode(code)})
+}
+
+func (v *VerifRLFanout) AcceptStream(ctx context.Context) (*Stream, error)   { return v.m.AcceptStream(ctx) }
+func (v *VerifRLFanout) OpenStreamSync(ctx context.Context) (*Stream, error) { return v.m.OpenStreamSync(ctx) }
+func (v *VerifRLFanout) ReceiveDatagram(ctx context.Context) ([]byte, error) { return v.dq.Receive(ctx) }
+
+// CloseWithError: what handleCloseError does to the API objects.
+func (v *VerifRLFanout) CloseWithError(e error) {
+	v.m.CloseWithError(e)
+	v.dq.CloseWithError(e)
+}
